@@ -41,6 +41,9 @@ func runC05(c *Config, r *Report) {
 	c05R8(ic, r, "R05.8")
 	c05R9(ic, r)
 	c05R10(ic, r)
+	c05R12(ic, r)
+	c05R13(ic, r)
+	c05R14(ic, r)
 	c05R11(ic, r)
 	c05R3(ic, r)
 	c05R5(ic, r)
@@ -701,5 +704,348 @@ func c05R11(ic *IC, r *Report) {
 	}
 	if n == 0 {
 		r.Errorf("R05.11: no run-time closure found in getMethod")
+	}
+}
+
+func init() {
+	ruleText["R05.12"] = "every exit of every run-time closure of the type-assertion generator completes the two-value form: the closure defers the completion (status, and zero result on failure), or each of its return statements calls a completion or comes after one in an enclosing statement list"
+}
+
+// c05R12: round-6 seed. The deferred completion was replaced by explicit calls and one failing
+// exit (method missing from the dynamic type) was forgotten: j, ok := x.(J) kept the j and ok of
+// the previous execution of the statement.
+func c05R12(ic *IC, r *Report) {
+	info := ic.Info
+	fi := ic.fn(r, "typeAssert")
+	if fi == nil {
+		return
+	}
+	execFld := ic.field("node", "exec")
+	// in-package completion functions: set a bool status
+	setsStatus := func(body ast.Node) bool {
+		return len(callsIn(info, body, true, "reflect.Value.SetBool")) > 0
+	}
+	completer := map[types.Object]bool{}
+	for f, hd := range ic.G.Funcs {
+		if hd.Decl.Body != nil && hd.Decl.Recv == nil && setsStatus(hd.Decl.Body) && len(hd.Decl.Body.List) <= 6 {
+			completer[f] = true
+		}
+	}
+	// local closures of typeAssert that complete (directly or through a completion function)
+	completesIn := func(body ast.Node) bool {
+		if setsStatus(body) {
+			return true
+		}
+		for _, c := range allCalls(body) {
+			if o := calleeOf(info, c); o != nil && completer[o] {
+				return true
+			}
+		}
+		return false
+	}
+	ast.Inspect(fi.Decl.Body, func(m ast.Node) bool {
+		as, ok := m.(*ast.AssignStmt)
+		if !ok || len(as.Lhs) != 1 || len(as.Rhs) != 1 {
+			return true
+		}
+		if fl, ok := unparen(as.Rhs[0]).(*ast.FuncLit); ok && selField(info, as.Lhs[0]) != execFld {
+			if id := identOf(as.Lhs[0]); id != nil && completesIn(fl.Body) {
+				completer[info.ObjectOf(id)] = true
+			}
+		}
+		return true
+	})
+	isCompletion := func(n ast.Node) bool {
+		found := false
+		ast.Inspect(n, func(q ast.Node) bool {
+			if c, ok := q.(*ast.CallExpr); ok {
+				if isCallTo(info, c, "reflect.Value.SetBool") {
+					found = true
+				}
+				if o := calleeOf(info, c); o != nil && completer[o] {
+					found = true
+				}
+				if id := identOf(c.Fun); id != nil && completer[info.ObjectOf(id)] {
+					found = true
+				}
+			}
+			return true
+		})
+		return found
+	}
+	n := 0
+	ast.Inspect(fi.Decl.Body, func(m ast.Node) bool {
+		as, ok := m.(*ast.AssignStmt)
+		if !ok || len(as.Lhs) != 1 || len(as.Rhs) != 1 || selField(info, as.Lhs[0]) != execFld {
+			return true
+		}
+		fl, ok := unparen(as.Rhs[0]).(*ast.FuncLit)
+		if !ok {
+			return true
+		}
+		n++
+		// the deferred form
+		deferredOK := false
+		for _, st := range fl.Body.List {
+			var ds *ast.DeferStmt
+			switch y := st.(type) {
+			case *ast.DeferStmt:
+				ds = y
+			case *ast.IfStmt:
+				// if withOk { defer ... }: the test is a parameter of the generator
+				if id := identOf(y.Cond); id != nil && len(y.Body.List) == 1 {
+					if _, isParam := info.ObjectOf(id).(*types.Var); isParam {
+						ds, _ = y.Body.List[0].(*ast.DeferStmt)
+					}
+				}
+			case *ast.ReturnStmt:
+			}
+			if ds != nil && isCompletion(ds.Call) {
+				deferredOK = true
+			}
+			if _, isRet := st.(*ast.ReturnStmt); isRet {
+				break
+			}
+			if deferredOK {
+				break
+			}
+			// only leading statements without a return may precede the defer
+			hasRet := false
+			ast.Inspect(st, func(q ast.Node) bool {
+				if _, ok := q.(*ast.FuncLit); ok {
+					return false
+				}
+				if _, ok := q.(*ast.ReturnStmt); ok {
+					hasRet = true
+				}
+				return true
+			})
+			if hasRet {
+				break
+			}
+		}
+		var bad []string
+		if !deferredOK {
+			var visit func(list []ast.Stmt, covered bool)
+			var visitStmt func(s ast.Stmt, covered bool)
+			visit = func(list []ast.Stmt, covered bool) {
+				for _, s := range list {
+					visitStmt(s, covered)
+					switch y := s.(type) {
+					case *ast.ExprStmt:
+						if isCompletion(y) {
+							covered = true
+						}
+					case *ast.IfStmt:
+						// if withOk { completion }
+						if id := identOf(y.Cond); id != nil && y.Else == nil && isCompletion(y.Body) {
+							covered = true
+						}
+					}
+				}
+			}
+			visitStmt = func(s ast.Stmt, covered bool) {
+				switch y := s.(type) {
+				case *ast.ReturnStmt:
+					if !covered && !isCompletion(y) {
+						bad = append(bad, ic.pos(y.Pos()))
+					}
+				case *ast.BlockStmt:
+					visit(y.List, covered)
+				case *ast.IfStmt:
+					visit(y.Body.List, covered)
+					if y.Else != nil {
+						visitStmt(y.Else, covered)
+					}
+				case *ast.ForStmt:
+					visit(y.Body.List, covered)
+				case *ast.RangeStmt:
+					visit(y.Body.List, covered)
+				case *ast.SwitchStmt:
+					for _, c := range y.Body.List {
+						visit(c.(*ast.CaseClause).Body, covered)
+					}
+				case *ast.TypeSwitchStmt:
+					for _, c := range y.Body.List {
+						visit(c.(*ast.CaseClause).Body, covered)
+					}
+				case *ast.LabeledStmt:
+					visitStmt(y.Stmt, covered)
+				}
+			}
+			visit(fl.Body.List, false)
+		}
+		r.Check(len(bad) == 0, "R05.12", fmt.Sprintf("typeAssert/closure#%d/every-exit-completes-the-two-value-form", n), ic.pos(fl.Pos()), "the completion is deferred, or made at every return",
+			"this closure of typeAssert does not defer the completion of v, ok = x.(T) and leaves through the return(s) at "+strings.Join(bad, ", ")+" without setting the status: ok (and v) keep what the previous execution of the statement left - a failed assertion in a loop reports the success of the iteration before")
+		return true
+	})
+	if n < 4 {
+		r.Errorf("R05.12: only %d run-time closures of typeAssert found", n)
+	}
+}
+
+func init() {
+	ruleText["R05.13"] = "a field found by a selector is always weighed against a method of the same name: no condition on the way to the depth comparison (methodDepth) in cfg reads the method list of the selected type itself (directly or through a helper) - promoted methods come from the embedded types, whatever the outer type declares"
+}
+
+// c05R13: round-6 seed. The depth look-up was skipped "for types which have no method": a method
+// promoted from an embedded type, shallower than a promoted field of the same name, was ignored
+// when the outer struct declared no method of its own.
+func c05R13(ic *IC, r *Report) {
+	info := ic.Info
+	cfgFn := ic.fn(r, "Interpreter.cfg")
+	if cfgFn == nil {
+		return
+	}
+	methFld := ic.field("itype", "method")
+	readsMethods := map[types.Object]bool{}
+	for f, hd := range ic.G.Funcs {
+		if hd.Decl.Body == nil {
+			continue
+		}
+		ast.Inspect(hd.Decl.Body, func(q ast.Node) bool {
+			if se, ok := q.(*ast.SelectorExpr); ok && selField(info, se) == methFld {
+				readsMethods[f] = true
+			}
+			return true
+		})
+	}
+	direct := map[types.Object]bool{}
+	for f := range readsMethods {
+		direct[f] = true
+	}
+	for f, hd := range ic.G.Funcs {
+		if hd.Decl.Body == nil || readsMethods[f] {
+			continue
+		}
+		for _, c := range allCalls(hd.Decl.Body) {
+			if o := calleeOf(info, c); o != nil && direct[o] {
+				readsMethods[f] = true
+			}
+		}
+	}
+	calls := callsIn(info, cfgFn.Decl.Body, true, "interp.itype.methodDepth")
+	if len(calls) < 2 {
+		r.Errorf("R05.13: %d depth comparisons (methodDepth) found in cfg, 2 expected (interpreted field, field of an embedded compiled struct)", len(calls))
+		return
+	}
+	for i, c := range calls {
+		bad := ""
+		for _, g := range pathGuards(cfgFn.Decl.Body, c) {
+			ast.Inspect(g.cond, func(q ast.Node) bool {
+				switch y := q.(type) {
+				case *ast.SelectorExpr:
+					if selField(info, y) == methFld {
+						bad = types.ExprString(g.cond)
+					}
+				case *ast.CallExpr:
+					if o := calleeOf(info, y); o != nil && readsMethods[o] {
+						bad = types.ExprString(g.cond)
+					}
+				}
+				return true
+			})
+		}
+		r.Check(bad == "", "R05.13", fmt.Sprintf("cfg/selector/depth-comparison#%d/whatever-the-type-declares", i+1), ic.pos(c.Pos()), "no condition on the way reads the type's own method list",
+			"cfg compares the depth of the field with that of a method of the same name only under "+bad+", which reads the method list of the selected type: a method promoted from an embedded type is not in that list, so when the outer struct declares no method the shallower promoted method loses against a deeper field of the same name (x.Name() is rejected, or calls the func-typed field)")
+	}
+}
+
+func init() {
+	ruleText["R05.14"] = "the field path of a method receiver (receiver.index) is walked through the interface wrappers: every loop over that path (in the function reading it or in the helper it is handed to) that steps with reflect.Value.Field also asserts valueInterface at each step, and the path is never given to reflect's FieldByIndex - the embedded field may be an interface whose dynamic value holds the receiver"
+}
+
+// c05R14: round-6 seed. The walk was extracted into a fieldByIndex helper without the
+// unwrapping: a method promoted inside the dynamic value of an embedded interface panicked.
+func c05R14(ic *IC, r *Report) {
+	info := ic.Info
+	idxFld := ic.field("receiver", "index")
+	if idxFld == nil {
+		r.Errorf("R05.14: field receiver.index not found")
+		return
+	}
+	isVI := func(t types.Type) bool { return t != nil && isNamed(t, "valueInterface") }
+	// walkOK examines the loops over the variable obj inside body
+	var examine func(owner string, body ast.Node, obj types.Object, depth int) (loops int, bad []string)
+	examine = func(owner string, body ast.Node, obj types.Object, depth int) (loops int, bad []string) {
+		ast.Inspect(body, func(q ast.Node) bool {
+			switch y := q.(type) {
+			case *ast.RangeStmt:
+				if id := identOf(y.X); id != nil && info.ObjectOf(id) == obj {
+					if len(callsIn(info, y.Body, true, "reflect.Value.Field")) == 0 {
+						return true
+					}
+					loops++
+					unwraps := false
+					ast.Inspect(y.Body, func(z ast.Node) bool {
+						if ta, ok := z.(*ast.TypeAssertExpr); ok && ta.Type != nil && isVI(info.TypeOf(ta.Type)) {
+							unwraps = true
+						}
+						return true
+					})
+					if !unwraps {
+						bad = append(bad, "the loop of "+owner+" at "+ic.pos(y.Pos())+" steps with Field and never asserts valueInterface")
+					}
+				}
+			case *ast.CallExpr:
+				for ai, a := range y.Args {
+					id := identOf(a)
+					if id == nil || info.ObjectOf(id) != obj {
+						continue
+					}
+					if isCallTo(info, y, "reflect.Value.FieldByIndex", "reflect.Value.FieldByIndexErr") {
+						loops++
+						bad = append(bad, owner+" hands the path to "+types.ExprString(y.Fun)+" at "+ic.pos(y.Pos()))
+						continue
+					}
+					if g, ok := calleeOf(info, y).(*types.Func); ok && g.Pkg() == ic.Pk.Types && depth < 2 {
+						if gi := ic.G.Funcs[g]; gi != nil && gi.Decl.Body != nil {
+							sg := g.Type().(*types.Signature)
+							if ai < sg.Params().Len() {
+								l, b := examine(g.Name(), gi.Decl.Body, sg.Params().At(ai), depth+1)
+								loops += l
+								bad = append(bad, b...)
+							}
+						}
+					}
+				}
+			}
+			return true
+		})
+		return
+	}
+	nLoops := 0
+	for _, name := range sortedKeys(ic.F) {
+		fi := ic.F[name]
+		if fi.Decl.Body == nil {
+			continue
+		}
+		// locals assigned from the field, and direct uses
+		ast.Inspect(fi.Decl.Body, func(q ast.Node) bool {
+			as, ok := q.(*ast.AssignStmt)
+			if !ok || len(as.Lhs) != len(as.Rhs) {
+				return true
+			}
+			for i, rh := range as.Rhs {
+				if selField(info, rh) != idxFld {
+					continue
+				}
+				l := identOf(as.Lhs[i])
+				if l == nil || info.ObjectOf(l) == nil {
+					continue
+				}
+				loops, bad := examine(name, fi.Decl.Body, info.ObjectOf(l), 0)
+				if loops == 0 {
+					continue
+				}
+				nLoops += loops
+				r.Check(len(bad) == 0, "R05.14", name+"/receiver-path-walked-through-interface-wrappers", ic.pos(as.Pos()), "each step of the walk unwraps valueInterface",
+					strings.Join(bad, "; ")+": when an embedded field on the path is an interface, the rest of the path is inside the dynamic value it wraps - the walk panics (Field of an interface Value) when a method promoted through that interface is called")
+			}
+			return true
+		})
+	}
+	if nLoops == 0 {
+		r.Errorf("R05.14: no walk of a receiver field path found")
 	}
 }
